@@ -2225,6 +2225,11 @@ fn verify_ecdsa(public_key: &[u8], message: &[u8], signature: &[u8]) -> Result<V
 
     let secp = Secp256k1::verification_only();
 
+    // Only the 33-byte compressed form is a valid verification key.
+    if public_key.len() != 33 {
+        return Err(secp256k1::Error::InvalidPublicKey.into());
+    }
+
     let public_key = PublicKey::from_slice(public_key)?;
 
     let signature = Signature::from_compact(signature)?;
@@ -2269,6 +2274,11 @@ fn verify_schnorr(public_key: &[u8], message: &[u8], signature: &[u8]) -> Result
 #[cfg(target_family = "wasm")]
 fn verify_ecdsa(public_key: &[u8], message: &[u8], signature: &[u8]) -> Result<Value, Error> {
     use k256::ecdsa::{self, signature::hazmat::PrehashVerifier};
+
+    // Only the 33-byte compressed form is a valid verification key.
+    if public_key.len() != 33 {
+        return Err(Error::K256Error("K256 error: invalid public key length".to_string()));
+    }
 
     let verifying_key = ecdsa::VerifyingKey::try_from(public_key)?;
 
